@@ -29,6 +29,20 @@ type c09Witness struct {
 func partialTree(es []ev.E) *tnode {
 	var stack []*tnode
 	var root *tnode
+	marked := map[string]*tnode{}
+	pendingMarker := ""
+	type pendingRef struct {
+		parent *tnode
+		idx    int
+		id     string
+	}
+	var refs []pendingRef
+	mark := func(n *tnode) {
+		if pendingMarker != "" {
+			marked[pendingMarker] = n
+			pendingMarker = ""
+		}
+	}
 	add := func(n *tnode) {
 		if len(stack) == 0 {
 			if root == nil {
@@ -42,14 +56,27 @@ func partialTree(es []ev.E) *tnode {
 	for i := 0; i < len(es); i++ {
 		e := es[i]
 		if n, ok := scalarNode(e); ok {
+			mark(n)
 			add(n)
 			continue
 		}
 		switch e.K {
+		case ev.Marker:
+			pendingMarker = string(e.Data)
+		case ev.Ref:
+			if len(stack) > 0 {
+				top := stack[len(stack)-1]
+				refs = append(refs, pendingRef{top, len(top.children), string(e.Data)})
+			}
+			add(&tnode{kind: tUnresolved})
 		case ev.List:
-			stack = append(stack, &tnode{kind: tList})
+			n := &tnode{kind: tList}
+			mark(n)
+			stack = append(stack, n)
 		case ev.Map:
-			stack = append(stack, &tnode{kind: tMap})
+			n := &tnode{kind: tMap}
+			mark(n)
+			stack = append(stack, n)
 		case ev.End:
 			if len(stack) > 0 {
 				n := stack[len(stack)-1]
@@ -90,14 +117,36 @@ func partialTree(es []ev.E) *tnode {
 			}
 			i = j - 1
 			if complete {
+				var n *tnode
 				switch e.K {
 				case ev.MediaBegin:
-					add(&tnode{kind: tMedia, mt: e.S, data: data})
+					n = &tnode{kind: tMedia, mt: e.S, data: data}
 				case ev.CustomBegin:
-					add(&tnode{kind: tCustom, ct: e.U, data: data, at: e.AT})
+					n = &tnode{kind: tCustom, ct: e.U, data: data, at: e.AT}
 				default:
-					add(arrayNode(e.AT, elems, data, false))
+					n = arrayNode(e.AT, elems, data, false)
 				}
+				mark(n)
+				add(n)
+			}
+			pendingMarker = ""
+		}
+	}
+	// references: to a value that was completely decoded -> that very node (sharing and cycles are preserved); to a
+	// container still open at the cut -> resolved to it or left empty; to nothing decoded -> only an empty placeholder
+	openAtCut := map[*tnode]bool{}
+	for _, n := range stack {
+		openAtCut[n] = true
+	}
+	for _, r := range refs {
+		if r.idx >= len(r.parent.children) {
+			continue
+		}
+		if n, ok := marked[r.id]; ok {
+			if openAtCut[n] {
+				r.parent.children[r.idx] = &tnode{kind: tUnresolved, alt: n}
+			} else {
+				r.parent.children[r.idx] = n
 			}
 		}
 	}
@@ -215,6 +264,16 @@ func c09Corpus() []c09Doc {
 	arr := []ev.E{ev.EList(), ev.EPInt(1), ev.EArr(events.ArrayTypeUint8, 20, bytes.Repeat([]byte{7}, 20)), ev.EPInt(2),
 		ev.EArr(events.ArrayTypeUint16, 17, bytes.Repeat([]byte{1, 2}, 17)), ev.EPInt(3), long, ev.EPInt(4), ev.EArr(events.ArrayTypeUint32, 3, bytes.Repeat([]byte{9, 0, 0, 0}, 3)), ev.EStr("end"), ev.EEnd()}
 	out = append(out, c09Doc{"list-arrays", doc(arr...), []interface{}{nil, []interface{}{}}})
+	// F7: markers and references: backward, forward, shared containers, a cycle, in lists and maps
+	mk, rf := ev.EMarker, ev.ERef
+	out = append(out,
+		c09Doc{"markers", doc(ev.EList(), ev.EPInt(1), mk("a"), ev.EList(), ev.EPInt(2), ev.EPInt(3), ev.EEnd(), rf("a"), ev.EPInt(4), ev.EEnd()), []interface{}{nil, []interface{}{}}},
+		c09Doc{"markers", doc(ev.EList(), mk("a"), long, rf("a"), rf("a"), ev.EPInt(5), ev.EEnd()), []interface{}{nil, []interface{}{}, []string{}}},
+		c09Doc{"markers", doc(ev.EList(), rf("a"), ev.EPInt(1), mk("a"), ev.EPInt(2), ev.EPInt(3), ev.EEnd()), []interface{}{nil, []interface{}{}, []int{}}},
+		c09Doc{"markers", doc(ev.EMap(), ev.EStr("x"), mk("a"), ev.EList(), ev.EPInt(1), ev.EEnd(), ev.EStr("y"), rf("a"), ev.EStr("z"), mk("b"), ev.EPInt(7), ev.EStr("w"), rf("b"), ev.EEnd()), []interface{}{nil, map[string]interface{}{}}},
+		c09Doc{"markers", doc(mk("a"), ev.EList(), ev.EPInt(1), rf("a"), ev.EPInt(2), ev.EEnd()), []interface{}{nil, []interface{}{}}},
+		c09Doc{"markers", doc(ev.EList(), ev.EPInt(1), mk("a"), ev.EMap(), ev.EStr("k"), mk("b"), ev.EStr("v"), ev.EStr("l"), rf("b"), ev.EEnd(), rf("a"), rf("b"), ev.EEnd()), []interface{}{nil, []interface{}{}}},
+	)
 	// F6: payloads longer than the binary reader's initial buffer (127 bytes) and than two of its growth steps, as the
 	// top-level value and between list elements
 	seq := func(n int) []byte {
